@@ -33,7 +33,7 @@ LATTICES = [
 def required_cells(tier):
     return {"method:tempo": 4, "method:pt": 4, "method:meanfield": 3,
             "merged": 10, "total-degeneracy": 1, "no-degeneracy": 1,
-            "rotated": 3, "memory:cut": 3}
+            "rotated": 3, "memory:cut": 3, "meanfield:two-species": 2}
 
 
 def cases(tier, seed):
@@ -85,6 +85,7 @@ def run_case(case):
     # has at most d^2-d+1 classes; "merged" means more than that)
     merged = n_north < d * d or n_west < d * d - d + 1
     fields = None
+    cells_two = False
     if method in ("tempo", "pt"):
         h = gen.rand_herm(rng, d, 0.7)
         sysm = oqupy.System(h, [float(rng.uniform(0.05, 0.3))],
@@ -94,16 +95,41 @@ def run_case(case):
         db = run(sysm, oper, corr, rho0, start, dt, nsteps, params, True)
         sa, sb = np.array(da.states), np.array(db.states)
     else:
-        mf = lib.MeanFieldModel(rng, [d])
+        # one or two species; the second species has a different coupling
+        # operator: either a permutation of the same spectrum (equal class
+        # counts at different positions) or another lattice
+        two = bool((i // 3) % 2)
+        opers, rhos, dims = [oper], [rho0], [d]
+        if two:
+            if (i // 6) % 2 == 0:
+                o2 = np.roll(o, 1) if len(set(np.round(o, 9))) > 1 \
+                    else o[::-1]
+            else:
+                o2 = np.array(LATTICES[(i // 3 + 5) % len(LATTICES)], float)
+                if quick:
+                    o2 = o2[:3]
+                o2, _, sc2 = lib.guard_coupling(p, o2 * 0.7, dt, nsteps, kmax,
+                                                tau, rng)
+                scale = max(scale, sc2)
+            d2 = len(o2)
+            opers.append(np.diag(o2).astype(complex))
+            rhos.append(gen.rand_state(rng, d2))
+            dims.append(d2)
+            cells_two = True
+        mf = lib.MeanFieldModel(rng, dims)
         end = lib.end_time(start, dt, nsteps)
         outs = []
         for uq in (False, True):
             mfs, _ = mf.build()
-            t = oqupy.MeanFieldTempo(mfs, [oqupy.Bath(oper, corr)], params,
-                                     [rho0], 0.2 - 0.1j, start, unique=uq)
+            t = oqupy.MeanFieldTempo(
+                mfs, [oqupy.Bath(o_, corr) for o_ in opers], params, rhos,
+                0.2 - 0.1j, start, unique=uq)
             outs.append(t.compute(end, progress_type="silent"))
-        sa = np.array(outs[0].system_dynamics[0].states)
-        sb = np.array(outs[1].system_dynamics[0].states)
+        sa = np.concatenate([np.array(sd.states).reshape(nsteps + 1, -1)
+                             for sd in outs[0].system_dynamics], axis=1)
+        sb = np.concatenate([np.array(sd.states).reshape(nsteps + 1, -1)
+                             for sd in outs[1].system_dynamics], axis=1)
+        sa, sb = sa[:, :, None], sb[:, :, None]
         fields = (np.array(outs[0].fields), np.array(outs[1].fields))
     violations = []
     bound = C_BOUND * epsrel * scale
@@ -125,6 +151,8 @@ def run_case(case):
                         f"classes of {d * d})",
                 "mechanism": "unique-differs", "detail": {"errs": errs}})
     cells = ["method:" + method]
+    if cells_two:
+        cells.append("meanfield:two-species")
     if merged:
         cells.append("merged")
     if n_west == 1:
